@@ -390,3 +390,59 @@ def declare(reg):
                  loops={0: SG_OUTER, 1: SG_INNER, 2: SG_REMOVE},
                  raises={},
                  ensures=SG_POST)
+    declare_init(reg)
+
+
+def declare_init(reg):
+    """ComponentType.__init__ (C02): two windows of the constructor body - the classification of the declared dependencies and the
+    final dependency list.  *deps / **kwargs handling, metadata, group and tags (before / between / after the windows) are not executed."""
+    Dep = U("Dep")          # one declared dependency: a component, or a list of components (an at-least-one group)
+    reg.sort(Dep=Dep)
+    reg.cls("Dep", __isinstance__={"list": "is_group(self)"})
+    reg.specfun("is_group", dict(d=Dep), BOOL, None)
+    reg.specfun("group_of", dict(d=Dep), List(Comp), None)
+    reg.specfun("comp_of", dict(d=Dep), Comp, None)
+    reg.iter_views = getattr(reg, "iter_views", {})
+    reg.iter_views["Dep"] = ("group_of", List(Comp))
+    reg.coercions = getattr(reg, "coercions", {})
+    reg.coercions[(Dep.key, Comp.key)] = "comp_of"
+    reg.coercions[(Dep.key, List(Comp).key)] = "group_of"
+    reg.cls("DelegateCls", requires=List(Dep), optional=List(Comp))
+    reg.classes["Delegate"]["__class__"] = Ref("DelegateCls")
+    R = "(self.__class__.requires + deps)"
+    SZ = "(len(group_of(requires[{k}])) if is_group(requires[{k}]) else 1)"
+    INV = ["it_1 == requires", "len(off) == i_1 + 1 and off[0] == len(D0)", "len(self.deps) == off[i_1]",
+           "forall(k, range(0, len(D0)), self.deps[k] == D0[k])",
+           "forall(k, range(0, i_1 + 1), len(D0) <= off[k] and off[k] <= off[i_1])",
+           # element k of the declaration contributes, in order, its group members or itself, at offsets off[k] .. off[k+1]
+           "forall(k, range(0, i_1), off[k + 1] == off[k] + %s and off[k] >= len(D0))" % SZ.format(k="k"),
+           "forall(k, range(0, i_1), implies(is_group(requires[k]), forall(j, range(0, len(group_of(requires[k]))), self.deps[off[k] + j] == group_of(requires[k])[j])))",
+           "forall(k, range(0, i_1), implies(not is_group(requires[k]), self.deps[off[k]] == comp_of(requires[k])))",
+           # required components and at-least-one groups, each in declaration order: ri / ai are the positions of the plain / group
+           # declarations met so far
+           "len(self.requires) == len(R0) + len(ri) and forall(k, range(0, len(R0)), self.requires[k] == R0[k])",
+           "forall(m, range(0, len(ri)), 0 <= ri[m] and ri[m] < i_1 and not is_group(requires[ri[m]]) and self.requires[len(R0) + m] == comp_of(requires[ri[m]]))",
+           "forall(a, range(0, len(ri)), forall(b, range(0, len(ri)), implies(a < b, ri[a] < ri[b])))",
+           "len(rpos) == i_1 and forall(k, range(0, i_1), implies(not is_group(requires[k]), 0 <= rpos[k] and rpos[k] < len(ri) and ri[rpos[k]] == k))",
+           "len(self.at_least_one) == len(A0) + len(ai) and forall(k, range(0, len(A0)), self.at_least_one[k] == A0[k])",
+           "forall(m, range(0, len(ai)), 0 <= ai[m] and ai[m] < i_1 and is_group(requires[ai[m]]) and seq_eq(self.at_least_one[len(A0) + m], group_of(requires[ai[m]])))",
+           "forall(a, range(0, len(ai)), forall(b, range(0, len(ai)), implies(a < b, ai[a] < ai[b])))",
+           "len(apos) == i_1 and forall(k, range(0, i_1), implies(is_group(requires[k]), 0 <= apos[k] and apos[k] < len(ai) and ai[apos[k]] == k))"]
+    reg.contract(M, "ComponentType.__init__", window="classify",
+                 params=collections.OrderedDict(self=Ref("Delegate"), deps=List(Dep), kwargs=Map(STR, PY)),
+                 from_stmt="requires = list(self.__class__.requires) + deps", to_stmt="self.optional = list(self.__class__.optional)",
+                 modifies=["Delegate.requires", "Delegate.at_least_one", "Delegate.deps"],
+                 locals=collections.OrderedDict(requires=List(Dep), off=List(INT), D0=List(Comp), R0=List(Comp), A0=List(List(Comp)), ri=List(INT), ai=List(INT), rpos=List(INT), apos=List(INT)),
+                 no_merge=("*",),
+                 ghosts=collections.OrderedDict(off=(List(INT), "[len(self.deps)]"), D0=(List(Comp), "self.deps"), R0=(List(Comp), "self.requires"),
+                                                A0=(List(List(Comp)), "self.at_least_one"), ri=(List(INT), "[]"), ai=(List(INT), "[]"), rpos=(List(INT), "[]"), apos=(List(INT), "[]")),
+                 ghost_on=[("self.deps.extend(d)", "off.append(len(self.deps)); ai.append(i_1); apos.append(len(ai) - 1); rpos.append(0 - 1)", "after"),
+                           ("self.deps.append(d)", "off.append(len(self.deps)); ri.append(i_1); rpos.append(len(ri) - 1); apos.append(0 - 1)", "after")],
+                 loops={1: INV}, raises={},
+                 ensures=["seq_eq(requires, %s)" % R] + [t.replace("i_1", "len(requires)") for t in INV[1:]])
+    reg.contract(M, "ComponentType.__init__", window="dependencies",
+                 params=collections.OrderedDict(self=Ref("Delegate"), deps=List(Dep), kwargs=Map(STR, PY)),
+                 from_stmt="self.deps.extend(self.optional)", to_stmt="self.metadata = {}",
+                 modifies=["Delegate.deps", "Delegate.dependencies"], raises={},
+                 # optional dependencies come last, in order; the dependency set is exactly the members of the list
+                 ensures=["seq_eq(self.deps, old(self.deps) + old(self.optional))", "self.dependencies == elems(self.deps)"])
